@@ -336,6 +336,16 @@ func (st *State) external(caller *frame, fn *ssa.Function, args []Value) Value {
 		return ConstInt(64, int64(strings.Compare(st.concStr(args[0], name), st.concStr(args[1], name))))
 	case "strings.Index":
 		return ConstInt(64, int64(strings.Index(st.concStr(args[0], name), st.concStr(args[1], name))))
+	case "strings.IndexByte":
+		// first position holding the byte: one branch per symbolic byte on the way
+		bs := strBytes(st.strArg(args[0]))
+		c := args[1].(*Term)
+		for i, b := range bs {
+			if st.Branch(Cmp(OpEq, Resize(b, c.W, false), c)) {
+				return ConstInt(64, int64(i))
+			}
+		}
+		return ConstInt(64, -1)
 	case "strings.TrimLeft":
 		return strings.TrimLeft(st.concStr(args[0], name), st.concStr(args[1], name))
 	case "strings.TrimPrefix":
